@@ -117,6 +117,100 @@ Example st_conf_left_unfixable :
   [mkReport KUConflict false; mkReport KNil false; mkReport KFkDangling false].
 Proof. vm_compute. reflexivity. Qed.
 
+(* whole-bucket states.  The department e never had a member: its back-reference set does not even exist in the
+   state the API leaves (bbolt: the bucket is created lazily by the first referrer).  b's dept is re-pointed to e
+   below the API; the back-reference set "reports" and the link set "sites" of a, the whole set index emp.roles and
+   the whole unique index emp.name are gone, the key bucket x of dept.tagsx is emptied.  [state] does not distinguish
+   an absent from an empty bucket, so check_complete / fix_convergent speak about both; the harness reaches both
+   (store_c09.go: FS to a target without referrers, EDB / EEB, SEK, XDB / XEB). *)
+Definition whole : list corruption :=
+  [ XField n_emp i_b n_deptf i_e; XSetClear n_emp i_a n_reports; XSetClear n_emp i_a n_sites;
+    XSClearIdx n_emp n_roles; XUClearIdx n_emp n_name; XSClearKey n_dept n_tagsx v_x ].
+Definition st_whole : state := corrupt_all st_ok whole.
+
+Example st_ok_target_without_backref_set :
+  match get_ent st_ok n_dept i_e with Some e => al_get n_members (e_s e) = None | None => False end.
+Proof. vm_compute. reflexivity. Qed.
+
+Example st_whole_all_reported :
+  map r_kind (fst (check_all idx_schema false st_whole)) =
+  [KUMissing; KUMissing; KSMissing; KSMissing; KSMissing; KBMissing; KBWrong; KBMissing; KLOneSided; KLOneSided;
+   KSEmptyKey; KSMissing] /\
+  forallb (fun x => negb (r_fixed x)) (fst (check_all idx_schema false st_whole)) = true.
+Proof. vm_compute. split; reflexivity. Qed.
+
+Example st_whole_not_consistent : ~ Consistent idx_schema st_whole.
+Proof. intros H. apply check_sound in H. vm_compute in H. discriminate. Qed.
+
+Example st_whole_fixed_in_one_run :
+  forallb r_fixed (fst (check_all idx_schema true st_whole)) = true /\
+  fst (check_all idx_schema false (snd (check_all idx_schema true st_whole))) = [] /\
+  uidx (snd (check_all idx_schema true st_whole)) n_emp n_name = uidx st_ok n_emp n_name /\
+  sidx (snd (check_all idx_schema true st_whole)) n_emp n_roles = sidx st_ok n_emp n_roles /\
+  get_set idx_schema (snd (check_all idx_schema true st_whole)) n_dept i_e n_members = [i_b] /\
+  get_set idx_schema (snd (check_all idx_schema true st_whole)) n_dept i_d n_members = [i_a] /\
+  get_set idx_schema (snd (check_all idx_schema true st_whole)) n_emp i_a n_reports = [i_b].
+Proof. vm_compute. repeat split; reflexivity. Qed.
+
+Example st_whole_fixed_consistent : Consistent idx_schema (snd (check_all idx_schema true st_whole)).
+Proof. apply fix_clean_consistent. vm_compute. reflexivity. Qed.
+
+(* the entry-by-entry forms on st_whole: b references the department e, whose back-reference set does not exist;
+   a links to d and e but its own link set is gone (seen from the departments: staff without reverse entry) *)
+Example missing_backref_reported_instance :
+  In (JCons n_emp (CFkIndex n_deptf n_dept n_members false)) (jobs idx_schema) /\
+  present idx_schema st_whole n_emp i_b = true /\
+  fv_bytes (get_field idx_schema st_whole n_emp i_b n_deptf) = i_e /\
+  present idx_schema st_whole n_dept i_e = true /\
+  get_set idx_schema st_whole n_dept i_e n_members = [] /\
+  fst (check_all idx_schema false st_whole) <> [].
+Proof.
+  assert (J : In (JCons n_emp (CFkIndex n_deptf n_dept n_members false)) (jobs idx_schema)) by (vm_compute; tauto).
+  split; [exact J|]. repeat (split; [vm_compute; reflexivity|]).
+  apply (missing_backref_reported idx_schema st_whole n_emp n_deptf n_dept n_members false i_b J);
+    [vm_compute; reflexivity | vm_compute; reflexivity | vm_compute; tauto].
+Qed.
+
+Example missing_reverse_link_reported_instance :
+  In (JLink n_dept (n_staff, n_emp, n_sites)) (jobs idx_schema) /\
+  In i_a (get_set idx_schema st_whole n_dept i_e n_staff) /\ get_set idx_schema st_whole n_emp i_a n_sites = [] /\
+  fst (check_all idx_schema false st_whole) <> [].
+Proof.
+  assert (J : In (JLink n_dept (n_staff, n_emp, n_sites)) (jobs idx_schema)) by (vm_compute; tauto).
+  split; [exact J|]. split; [vm_compute; tauto|]. split; [vm_compute; reflexivity|].
+  apply (missing_reverse_link_reported idx_schema st_whole n_dept n_staff n_emp n_sites i_e i_a J);
+    [vm_compute; reflexivity | vm_compute; tauto | vm_compute; tauto].
+Qed.
+
+Example missing_set_entry_reported_instance :
+  In (JCons n_emp (CSetIdx n_roles)) (jobs idx_schema) /\
+  In r2 (get_set idx_schema st_whole n_emp i_a n_roles) /\ sidx_ids st_whole n_emp n_roles r2 = [] /\
+  fst (check_all idx_schema false st_whole) <> [].
+Proof.
+  assert (J : In (JCons n_emp (CSetIdx n_roles)) (jobs idx_schema)) by (vm_compute; tauto).
+  split; [exact J|]. split; [vm_compute; tauto|]. split; [vm_compute; reflexivity|].
+  apply (missing_set_entry_reported idx_schema st_whole n_emp n_roles i_a r2 J);
+    [vm_compute; reflexivity | vm_compute; tauto | vm_compute; tauto].
+Qed.
+
+Example fix_restores_backrefs_instance :
+  In i_b (get_set idx_schema (snd (check_all idx_schema true st_whole)) n_dept i_e n_members).
+Proof.
+  assert (J : In (JCons n_emp (CFkIndex n_deptf n_dept n_members false)) (jobs idx_schema)) by (vm_compute; tauto).
+  pose proof (fix_restores_backrefs idx_schema st_whole n_emp n_deptf n_dept n_members false i_b idx_schema_wf_c09 J) as H.
+  cbv zeta in H.
+  assert (E : fv_bytes (get_field idx_schema (snd (check_all idx_schema true st_whole)) n_emp i_b n_deptf) = i_e) by (vm_compute; reflexivity).
+  rewrite E in H. apply H; vm_compute; reflexivity.
+Qed.
+
+Example fix_restores_reverse_links_instance :
+  In i_e (get_set idx_schema (snd (check_all idx_schema true st_whole)) n_emp i_a n_sites).
+Proof.
+  assert (J : In (JLink n_dept (n_staff, n_emp, n_sites)) (jobs idx_schema)) by (vm_compute; tauto).
+  apply (fix_restores_reverse_links idx_schema st_whole n_dept n_staff n_emp n_sites i_e i_a idx_schema_wf_c09 J);
+    [vm_compute; reflexivity | vm_compute; tauto].
+Qed.
+
 (* ---- the pinned tree (before fixes/C09-*.patch) ---- *)
 (* (c) a consistent database reached through the API is reported: the empty nick of a "is missing" *)
 Example check_sound_legacy_refuted :
